@@ -358,6 +358,32 @@ pub fn run_case(env: &Env, case: &Case, oracle: &mut Oracle, mut fill: Option<Pl
                     result.harness_error = Some(format!("child killed by signal {:?} (argv {:?})", out.signal, crate::util::excerpt(inv.argv("{ROOT}").join(" ").as_bytes(), 300)));
                     break;
                 }
+                // Recoverable trouble (a refused lock, a refused thread): the tool may do without or
+                // give up with an error - but exit status 0 means "done as if nothing had happened", so
+                // with exit 0 the whole fault-free postcondition is demanded, otherwise only safety.
+                let mut fired = fired;
+                if fired.lock_refused || fired.thread_refused {
+                    if out.exit == Some(0) {
+                        fired.lock_refused = false;
+                        fired.thread_refused = false;
+                    } else {
+                        fired.lock_refused = true;
+                        fired.thread_refused = false;
+                    }
+                }
+                // A stalled non-blocking stdin: "unreadable" and "read completely" are both legal.
+                // Judge with the reading that fits; only if neither does, report the second.
+                if fired.stdin_eagain {
+                    let mut f1 = fired.clone();
+                    f1.stdin_failed = true;
+                    let p1 = model::predict(&tree, &inv, &f1, oracle);
+                    let after1 = world::snapshot(&root).ok();
+                    if let Some(a1) = &after1 {
+                        if model::check(idx, &tree, &seen_before, &inv, &p1, a1, &out).is_empty() {
+                            fired.stdin_failed = true;
+                        }
+                    }
+                }
                 let pred = model::predict(&tree, &inv, &fired, oracle);
                 let after = match world::snapshot(&root) {
                     Ok(s) => s,
